@@ -39,4 +39,6 @@ PY
   git -C /repo worktree remove --force $WT
 else
   echo "NOT CONFIRMED"; cat /tmp/seeded/$N/suite.log | head -20
+  # put the demo files back so that the confirmation can be repeated
+  (cd /tmp/seeded/$N/aside && find . -name '*_test.go' | while read f; do cp $f $WT/$f; done); rm -rf /tmp/seeded/$N/aside
 fi
